@@ -2,8 +2,9 @@
 `treeOf` (2): from expressions to skeletons.  Operands that are not a single token are wrapped in a group node; a list is a
 left-nested `CommaList` spine, an else-chain a left-nested `ElseJump` spine over its `JumpIf` arms, `{ body }` a
 `NestedExpression` node over the skeleton of the body (`nb`: the skeletons of the bodies, by id).  The printer supplies the
-token text of literals and names.  Not produced (the skeleton is the placeholder `bad`, and `fragE` is false): side-effect
-blocks, lists with fewer than two items, an else-chain without arms or with a single conditional arm and no final arm,
+token text of literals and names.  A side-effect block after a value, `v [ body ]`, is the value node over a `SideEffect`
+node over the body.  Not produced (the skeleton is the placeholder `bad`, and `fragE` is false): side-effect blocks after
+anything but a literal / `$` / identifier, lists with fewer than two items, an else-chain without arms or with a single conditional arm and no final arm,
 operators outside the tables of `handle_parse_node`.
 -/
 import Garnish.Lemmas.CompileTreeOf
@@ -53,6 +54,12 @@ def isLeafE : Expr F → Bool
   | .lit _ | .input | .ident _ | .emptyNested => true
   | _ => false
 
+/-- the expressions a value node stands for -/
+def isValE : Expr F → Bool
+  | .lit _ | .input | .ident _ => true
+  | _ => false
+
+def sideLab : Lab := (.sideEffect, ['['])
 def grp : Lab := (.group, ['('])
 def comma : Lab := (.commaList, [','])
 def ej : Lab := (.elseJump, ['|', '>'])
@@ -98,7 +105,8 @@ def skel : Expr F → Sk
   | .and a b => .bin (wrap (isLeafE a) (skel a)) (.and, ['&', '&']) (wrap (isLeafE b) (skel b))
   | .or a b => .bin (wrap (isLeafE a) (skel a)) (.or, ['|', '|']) (wrap (isLeafE b) (skel b))
   | .seq a b => .bin (wrap (isLeafE a) (skel a)) (.expressionSeparator, [';']) (wrap (isLeafE b) (skel b))
-  | .sideAfter _ _ => bad
+  | .sideAfter x b =>
+    if isValE x then .pre (skel x).lab (.pre sideLab (skel b)) else bad
   | .nested id =>
     match nb id with
     | some s => .pre (.nestedExpression, ['{']) s
@@ -137,7 +145,7 @@ def fragE : Expr F → Prop
   | .and a b => fragE a ∧ fragE b
   | .or a b => fragE a ∧ fragE b
   | .seq a b => fragE a ∧ fragE b
-  | .sideAfter _ _ => False
+  | .sideAfter x b => isValE x = true ∧ fragE x ∧ fragE b
   | .nested id => okb id
   | .reapply x => fragE x
   | .prefixApply s x => parseSymbol (trimMatches '`' (pr.name s ++ ['`'])) = s ∧ fragE x
